@@ -27,6 +27,10 @@ pub struct Case {
     /// tight loop for this many milliseconds with Age::Second
     #[serde(default)]
     pub realtime_ms: u32,
+    /// > 0: (real-time case) so many times a logger is started right after a second boundary of
+    /// the wall clock and logs one record at once: no rotation may happen within that second
+    #[serde(default)]
+    pub aligned_starts: u32,
 }
 
 pub struct PartResult {
